@@ -732,6 +732,9 @@ func runC05(c *core.Ctx) {
 	ruleStatedTypes(c, "C05.stated-types")
 	c.Doc("C05.stated-shapes", "a stub method decodes the parameters and encodes the result its meta-object advertises for the action it is dispatched for", 30)
 	ruleStatedShapes(c, "C05.stated-shapes")
+	c.Doc("C05.stated-events", "generated signal / property emitters encode, and generated subscribers decode, the signature advertised or asked for under that name", 10)
+	ruleStatedEmitters(c, "C05.stated-events")
+	ruleStatedSubscribers(c, "C05.stated-events")
 }
 
 func stripFn(ts []etok) []etok {
